@@ -3,4 +3,4 @@ From Coq Require Extraction.
 From Coq Require Import ExtrOcamlBasic.
 From ACPI Require Import Lib.Bytes Lib.Sx Judge.
 Extraction Language OCaml.
-Extraction "model.ml" run_case oracle judged evs_eqb dec_step.
+Extraction "model.ml" run_case oracle judged project evs_eqb dec_step.
